@@ -479,6 +479,10 @@ func ValidUTF8(p []byte) bool {
 
 // ValidTopicName returns whether the bytes is a valid non-shared topic filter.[MQTT-4.7.1-1].
 func ValidTopicName(mustUTF8 bool, p []byte) bool {
+	// All Topic Names and Topic Filters MUST be at least one character long [MQTT-4.7.3-1]
+	if len(p) == 0 {
+		return false
+	}
 	for len(p) > 0 {
 		ru, size := utf8.DecodeRune(p)
 		if mustUTF8 && ru == utf8.RuneError && size <= 1 {
